@@ -230,8 +230,12 @@ func pkgFuncs(prog *ssa.Program, sp *ssa.Package) []*ssa.Function {
 }
 
 func namedOf(t types.Type) *types.Named {
+	if t == nil {
+		return nil
+	}
+	t = types.Unalias(t)
 	if p, ok := t.(*types.Pointer); ok {
-		t = p.Elem()
+		t = types.Unalias(p.Elem())
 	}
 	n, _ := t.(*types.Named)
 	return n
